@@ -278,6 +278,11 @@ class YieldInjector(object):
         self.last = None
         self.lock = threading.Lock()
         self.ncode = 0
+        self.long_sleep = 0
+        self.first_hit_sleep = 0
+        self.first_hit_mod = (1, 0)
+        self.seen = set()
+        self.first_hits = 0
 
     def codes(self):
         import importlib
@@ -331,9 +336,25 @@ class YieldInjector(object):
                 self.points.add((os.path.basename(code.co_filename), line))
             self.last = tid
             y = self.rng.random() < self.prob
+            first_hit = False
+            if self.first_hit_sleep:
+                loc = (code, line)
+                if loc not in self.seen:
+                    self.seen.add(loc)
+                    # (one line in K, so that the OTHER threads are not pausing at their own first executions
+                    # at the same time; K processes with different residues cover the lines between them)
+                    first_hit = len(self.seen) % self.first_hit_mod[0] == self.first_hit_mod[1]
+        if first_hit:
+            # the FIRST execution of this line in the process: whoever gets here first stays here for a
+            # while, so that the other threads run through everything already executed once and meet
+            # whatever this thread has half done (systematic exposure of the windows of lazy first builds)
+            self.first_hits += 1
+            time.sleep(self.first_hit_sleep)
         if y:
             self.yields += 1
-            time.sleep(0)
+            # now and then the thread stays descheduled for a while, so that the others get through many
+            # library calls while it sits inside whatever it was doing (a window a few lines wide)
+            time.sleep(self.long_sleep if self.long_sleep and self.yields % 7 == 0 else 0)
 
 
 def thread_workload(P, seed, n_threads, per_thread, prob):
@@ -402,7 +423,12 @@ def shard_threads(P, idx, per_thread, prob, seed):
 
 
 # ---- threads, cold start: the FIRST use of the library in a process is the concurrent one ---------
-def cold_pool(seed):
+THEMES = ("3-scope-changed", "4", "3-scope-changed", "2", "mixed", "3-scope-unchanged", "4", "mixed")
+
+
+def cold_pool(seed, theme="mixed"):
+    """(pool, first): `first` are the vectors the threads construct FIRST, all of one kind -- whatever is built
+    lazily for that kind (a version, a scope) is then being built while the other threads ask for it."""
     import random
     rng = random.Random("C19-cold-%s" % seed)
     pool = []
@@ -410,23 +436,40 @@ def cold_pool(seed):
         for _ in range(6):
             p, m, s = V.rand_vector(rng, ver, p_opt=rng.choice((0.2, 0.9)))
             pool.append((ver, s))
-    return pool
+    first = []
+    for _ in range(16):
+        ver = theme[0] if theme != "mixed" else rng.choice(T.VERSIONS)
+        p, m, s = V.rand_vector(rng, ver, p_opt=rng.choice((0.0, 0.3, 0.9)), p_nd=0.1)
+        if theme.startswith("3-scope"):
+            m = dict(m)
+            changed = theme.endswith("-changed")
+            m["S"] = "C" if changed else "U"
+            m["PR"] = rng.choice("LH")
+            if changed and rng.random() < 0.5:
+                m["S"], m["MS"], m["MPR"] = "U", "C", rng.choice("LH")
+            elif "MS" in m:
+                m["MS"] = m["S"]
+            s = V.spell(p, m, "shuffle", rng)
+        first.append((ver, s))
+    return pool + first, first
 
 
-def cold_child(seed, n_threads, per_thread, prob):
+def cold_child(seed, n_threads, per_thread, prob, theme="mixed", mod=(1, 0)):
     """Runs in a fresh interpreter: the package is imported, nothing has been constructed.  All
     threads leave a barrier together and observe vectors (every version first in some thread);
     afterwards the same inputs are observed single-threaded.  Prints one JSON document."""
     import random
-    pool = cold_pool(seed)
+    pool, first = cold_pool(seed, theme)
     results, errors = [], []
     inj = YieldInjector(prob, seed)
+    inj.first_hit_sleep = 0.003
+    inj.first_hit_mod = tuple(mod)
     have_mon = hasattr(sys, "monitoring")
     barrier = threading.Barrier(n_threads)
 
     def worker(tid):
         r = random.Random("C19-cold-%s-%s" % (seed, tid))
-        order = [pool[(tid * 6 + j) % len(pool)] for j in range(2)] + [pool[r.randrange(len(pool))] for _ in range(per_thread)]
+        order = [first[(tid * 2 + j) % len(first)] for j in range(2)] + [pool[r.randrange(len(pool))] for _ in range(per_thread)]
         barrier.wait()
         for k in order:
             try:
@@ -447,17 +490,160 @@ def cold_child(seed, n_threads, per_thread, prob):
         inj.stop()
     after = [[list(k), probe19.observe_vector(*k)] for k in pool]
     sys.stdout.write(json.dumps({"results": results, "errors": errors, "after": after, "events": inj.events, "switches": inj.switches,
-                                 "points": sorted(inj.points)}))
+                                 "points": sorted(inj.points), "first_hits": inj.first_hits}))
+
+
+# ---- threads, cold start, systematic: ONE preemption at every line of the first use -------------------------
+def switch_vectors(theme, seed):
+    """(vector of thread A, vectors of thread B): all of the theme's kind, different from each other."""
+    pool, first = cold_pool("%s-switch" % seed, theme)
+    return first[0], first[1:4]
+
+
+def cold_switch_parent(theme, seed, part, nparts):
+    """Runs in a fresh interpreter (package imported, nothing constructed) and never constructs anything
+    itself: every schedule runs in a forked child.  Thread A makes the process's first use of the library
+    (construct + all accessors of one vector); at the first execution of library line number k of that use it
+    is held while thread B constructs and observes other vectors of the same kind from start to end; then A
+    goes on.  One child per line (those with index % nparts == part).  Prints one JSON document."""
+    import pickle
+    vA, vBs = switch_vectors(theme, seed)
+    bootstrap.lib()
+
+    def child(target):
+        """target None: record A's distinct library lines in order of first execution."""
+        r, w = os.pipe()
+        pid = os.fork()
+        if pid:
+            os.close(w)
+            data = b""
+            while True:
+                chunk = os.read(r, 65536)
+                if not chunk:
+                    break
+                data += chunk
+            os.close(r)
+            os.waitpid(pid, 0)
+            return pickle.loads(data) if data else None
+        os.close(r)
+        out = None
+        try:
+            mon = sys.monitoring
+            inj = YieldInjector(0.0, 0)
+            go, done = threading.Event(), threading.Event()
+            state = {"A": None, "fired": False, "locs": [], "seen": set()}
+
+            def on_line(code, line):
+                if threading.get_ident() != state["A"]:
+                    return
+                loc = (os.path.basename(code.co_filename), line)
+                if target is None:
+                    if loc not in state["seen"]:
+                        state["seen"].add(loc)
+                        state["locs"].append(loc)
+                elif loc == target and not state["fired"]:
+                    state["fired"] = True
+                    go.set()
+                    done.wait(20)
+            mon.use_tool_id(inj.TOOL, "vmon-switch")
+            mon.register_callback(inj.TOOL, mon.events.LINE, on_line)
+            for c in inj.codes():
+                mon.set_local_events(inj.TOOL, c, mon.events.LINE)
+            res = {}
+
+            def a():
+                state["A"] = threading.get_ident()
+                try:
+                    res["A"] = probe19.observe_vector(*vA)
+                except BaseException as e:  # noqa
+                    res["A"] = {"harness-saw": repr(e)}
+                go.set()
+
+            def b():
+                go.wait(20)
+                res["B"] = []
+                for k in vBs:
+                    try:
+                        res["B"].append(probe19.observe_vector(*k))
+                    except BaseException as e:  # noqa
+                        res["B"].append({"harness-saw": repr(e)})
+                done.set()
+            ta, tb = threading.Thread(target=a), threading.Thread(target=b)
+            if target is None:
+                ta.start()
+                ta.join()
+                out = state["locs"]
+            else:
+                ta.start()
+                tb.start()
+                ta.join()
+                tb.join()
+                # and once more, single-threaded, afterwards (a half-built table may have been left behind)
+                res["after"] = [probe19.observe_vector(*k) for k in [vA] + list(vBs)]
+                res["fired"] = state["fired"]
+                out = res
+        except BaseException as e:  # noqa
+            out = {"child-error": repr(e)}
+        try:
+            os.write(w, pickle.dumps(json.loads(json.dumps(out)) if not isinstance(out, list) else out))
+        finally:
+            os._exit(0)
+
+    locs = child(None) or []
+    results = []
+    for i, loc in enumerate(locs):
+        if i % nparts == part:
+            results.append([list(loc), child(tuple(loc))])
+    sys.stdout.write(json.dumps({"locations": len(locs), "results": results}))
+
+
+def shard_cold_switch(P, theme, part, nparts, seed):
+    if not hasattr(sys, "monitoring"):
+        P.stratum("cold-switch:sys.monitoring-unavailable")
+        return
+    env = dict(os.environ)
+    env.update({"PYTHONDONTWRITEBYTECODE": "1", "PYTHONIOENCODING": "utf-8"})
+    code = "from vmon.monitors import C19; C19.cold_switch_parent(%r, %r, %d, %d)" % (theme, seed, part, nparts)
+    p = subprocess.run([sys.executable, "-B", "-c", code], cwd=bootstrap.VERIF, env=env, stdout=subprocess.PIPE,
+                       stderr=subprocess.PIPE, timeout=1800)
+    if p.returncode != 0:
+        P.notes.append("INCONCLUSIVE:cold-switch parent failed: %s" % p.stderr.decode("utf-8", "replace")[-300:])
+        return
+    out = json.loads(p.stdout.decode("utf-8"))
+    vA, vBs = switch_vectors(theme, seed)
+    ref = [json.loads(json.dumps(probe19.observe_vector(*k))) for k in [vA] + list(vBs)]
+    P.stratum("cold-switch:%s:library-lines-in-first-use" % theme, out["locations"] if part == 0 else 0)
+    for loc, res in out["results"]:
+        P.evaluations += 1
+        P.dist(("cold-switch", theme, tuple(loc)))
+        case = {"kind": "cold-switch", "first_vectors": theme, "seed": seed, "held_at": loc, "thread_A": list(vA), "thread_B": [list(k) for k in vBs]}
+        if not res or "child-error" in res:
+            P.notes.append("INCONCLUSIVE:cold-switch child failed at %s: %s" % (loc, res))
+            continue
+        P.ev("threads-cold-switch")
+        if not res.get("fired"):
+            P.stratum("cold-switch:line-not-reached-again")
+        got = [res["A"]] + res["B"]
+        for name, who, g, r in zip(["A"] + ["B"] * len(vBs), [vA] + list(vBs), got, ref):
+            if g != r:
+                fields = [f for f in g if isinstance(r, dict) and isinstance(g, dict) and g.get(f) != r.get(f)]
+                P.violation("threads", "C19:threads:cold-start:one-preemption:thread-%s-record-differs:%s" % (name, "+".join(fields[:2])), case,
+                            probe_input=list(who), single_threaded=r, with_preemption=g)
+                break
+        else:
+            if res["after"] != ref:
+                P.violation("threads", "C19:threads:cold-start:one-preemption:later-single-threaded-record-differs", case)
 
 
 def shard_threads_cold(P, idx, per_thread, prob, seed):
     tag = "%s-%s" % (seed, idx)
+    theme = THEMES[int(idx) % len(THEMES)]
     env = dict(os.environ)
     env.update({"PYTHONDONTWRITEBYTECODE": "1", "PYTHONIOENCODING": "utf-8"})
-    code = "from vmon.monitors import C19; C19.cold_child(%r, 8, %d, %r)" % (tag, per_thread, prob)
+    code = "from vmon.monitors import C19; C19.cold_child(%r, 8, %d, %r, %r)" % (tag, per_thread, prob, theme)
     p = subprocess.run([sys.executable, "-B", "-c", code], cwd=bootstrap.VERIF, env=env, stdout=subprocess.PIPE,
                        stderr=subprocess.PIPE, timeout=600)
-    case = {"kind": "threads-cold", "seed": tag, "threads": 8, "per_thread": per_thread, "yield_probability": prob}
+    case = {"kind": "threads-cold", "seed": tag, "threads": 8, "per_thread": per_thread, "yield_probability": prob, "first_vectors": theme}
     P.evaluations += 1
     P.dist(("threads-cold", tag))
     if p.returncode != 0:
@@ -467,7 +653,7 @@ def shard_threads_cold(P, idx, per_thread, prob, seed):
     P.ev("threads-cold-start")
     # the reference: the same inputs observed here, single-threaded (this process has a history of its
     # own, which the history monitor judges; any disagreement between the three is a violation)
-    base = {tuple(k): json.loads(json.dumps(probe19.observe_vector(*k))) for k in cold_pool(tag)}
+    base = {tuple(k): json.loads(json.dumps(probe19.observe_vector(*k))) for k in cold_pool(tag, theme)[0]}
     for tid, k, e in out["errors"][:3]:
         P.violation("threads", "C19:threads:cold-start:worker-raised:%s" % e.split("(")[0], case, probe_input=k, error=e)
     bad = [(tid, k, rec) for tid, k, rec in out["results"] if rec != base[tuple(k)]]
@@ -481,8 +667,10 @@ def shard_threads_cold(P, idx, per_thread, prob, seed):
                         reference=base[tuple(k)], after_concurrent_first_use=rec)
             break
     P.stratum("threads-cold:processes")
+    P.stratum("threads-cold:first-vectors:" + theme)
     P.stratum("threads-cold:records-compared", len(out["results"]))
     P.stratum("threads-cold:cross-thread-switches-inside-library", out["switches"])
+    P.stratum("threads-cold:first-execution-pauses", out.get("first_hits", 0))
     P.addset("thread_switch_points", [tuple(x) for x in out["points"]])
 
 
@@ -537,6 +725,10 @@ def replay(R, w):
         shard_decimal(R.P, case["rounding"], seed, base)
     elif case["kind"] == "threads":
         thread_workload(R.P, case["seed"], case["threads"], case["per_thread"], case["yield_probability"])
+    elif case["kind"] == "cold-switch":
+        # deterministic up to the operating system: the same single preemption is made again
+        shard_cold_switch(R.P, case["first_vectors"], 0, 1, case["seed"])
+        R.P.viol = [v for v in R.P.viol if v["case"].get("held_at") == case["held_at"]] or R.P.viol[:0]
     elif case["kind"] == "threads-cold":
         # thread schedules are sampled, not recorded: the same seeded workload is repeated a few times
         tag, _, idx = str(case["seed"]).rpartition("-")
@@ -553,7 +745,7 @@ def replay(R, w):
 
 def run(R):
     R.rule = RULE
-    R.require("history", "global-state", "silent", "aliasing", "threads", "threads-cold-start", "hash-seed", "decimal")
+    R.require("history", "global-state", "silent", "aliasing", "threads", "threads-cold-start", "threads-cold-switch", "hash-seed", "decimal")
     R.assumptions = ["decimal signal FLAGS are not part of the fingerprint (every decimal operation sets them by design)",
                      "thread interleavings are sampled (GIL switch interval 10 us + injected yields at library lines)",
                      "fresh-process baseline under PYTHONHASHSEED=0 with the default decimal context"]
@@ -582,7 +774,12 @@ def run(R):
     R.pmap("shard_history", [(i, R.pick(3, 120), R.pick(150, 500), R.seed, base) for i in range(16)])
     # 3 threads
     R.pmap("shard_threads", [(i, R.pick(12, 400), 0.02, R.seed) for i in range(R.pick(8, 32))])
-    R.pmap("shard_threads_cold", [(i, R.pick(6, 40), 0.02, R.seed) for i in range(R.pick(8, 64))])
+    # (short workloads: a high yield probability is affordable, and the windows of a lazy first build are a few lines wide)
+    R.pmap("shard_threads_cold", [(i, R.pick(6, 40), (0.05, 0.02, 0.2)[i % 3], R.seed) for i in range(R.pick(8, 64))])
+    # systematic: one preemption at every library line of the process's first use, per kind of vector
+    nparts = R.pick(4, 4)
+    R.pmap("shard_cold_switch", [(theme, part, nparts, R.seed) for theme in ("3-scope-changed", "4", "2", "3-scope-unchanged")
+                                 for part in range(nparts)])
     # 4 hash seeds
     seeds = ["1", "2", "12345", "random"] if R.quick else [str(i) for i in range(1, 25)] + ["12345", "4294967295"] + ["random"] * 14
     import concurrent.futures
